@@ -358,6 +358,9 @@ async fn handle_socks5_connection(
         tracing::error!("[SOCKS5] Task2 error: {:?}", e);
     }
 
+    // The request is finished: the session goes back to the pool so that the next request reuses it
+    client.release_session(session).await;
+
     tracing::debug!(
         "[SOCKS5] Connection to {}:{} closed",
         dest_addr.addr,
